@@ -66,7 +66,7 @@ func genC06Op(t *rapid.T, nsw int, anyPersist bool, cfg GenCfg) Op {
 		}
 		return []int{sw()}
 	}
-	c := rapid.IntRange(0, 103).Draw(t, "opclass")
+	c := rapid.IntRange(0, 109).Draw(t, "opclass")
 	switch {
 	case c < 24:
 		op := Op{K: "set"}
@@ -134,11 +134,13 @@ func genC06Op(t *rapid.T, nsw int, anyPersist bool, cfg GenCfg) Op {
 		return Op{K: "shift", S: sw(), Keys: GenKeys(t, "shkeys", 1, 4)}
 	case c < 98:
 		return Op{K: "destroy", S: sw()}
-	default:
+	case c < 104:
 		if anyPersist {
 			return Op{K: "close", S: sw()}
 		}
 		return Op{K: "isswamp", S: sw()}
+	default:
+		return Op{K: "shiftexp", S: sw(), N: pick(t, "howmany", []int{0, 0, 1, 2})}
 	}
 }
 
@@ -227,6 +229,9 @@ func runC06(h *RigHolder, guards Guards, relax Relax, wd time.Duration) func(C06
 		if d.Closes > 0 {
 			out.Classes = append(out.Classes, "has-close-reload")
 		}
+		if d.ShiftedExpired {
+			out.Classes = append(out.Classes, "shift-expired-removed-records")
+		}
 		for _, m := range s.Modes {
 			out.Classes = append(out.Classes, []string{"swamp-in-memory", "swamp-persistent-1s", "swamp-persistent-immediate"}[m%3])
 		}
@@ -242,7 +247,7 @@ func runC06(h *RigHolder, guards Guards, relax Relax, wd time.Duration) func(C06
 
 const c06Rule = "rapid-generated sequential histories (1-40 steps) over 1-2 swamps x 6 keys, in-memory / persistent (write interval 1 s and 0), " +
 	"mixing Set (all flag combinations, multi-key, multi-swamp, 15 value kinds, metadata), Get, GetByKeys, Delete, Count, IsSwampExist, IsKeyExist, AreKeysExist, " +
-	"the ten Increment* RPCs (conditions, metadata), Uint32SlicePush/Delete/Size/IsValueExist, ShiftByKeys, Destroy and closes of persistent swamps; " +
+	"the ten Increment* RPCs (conditions, metadata), Uint32SlicePush/Delete/Size/IsValueExist, ShiftByKeys, ShiftExpiredTreasures, Destroy and closes of persistent swamps; " +
 	"every call under a 10 s watchdog and through a protobuf wire round trip; every response and, after every step, GetAll + IsSwampExist of every swamp are compared with the map model; " +
 	"non-trivial = auto-destroy followed by a re-create, or a conditional increment whose condition is false, or a slice delete that empties the slice; distinct = hash of the scenario"
 
